@@ -111,7 +111,7 @@ func checkHelpers4(res *ev.Result, unit string, w uint32, r *rng.R) bool {
 			case j < pos:
 				want = o[j]
 			case j == pos:
-				want = 0
+				continue // the gap itself is overwritten by the caller right away: not asserted
 			default:
 				want = o[j-1]
 			}
